@@ -66,7 +66,24 @@ type ProcNode struct {
 	Dep Iface  `wire:"a"`
 	V0  string `value:"${cfg.a}"`
 	rt  *RT
+	// SeenDepType is the dynamic type of Dep when Init ran (raw node or a substitute)
+	SeenDepType string
 }
+
+// ProcOrdered / ProcNodeOrdered put the two user processors into the Ordered class.
+type ProcOrdered struct {
+	*Proc
+	O int
+}
+
+func (p *ProcOrdered) Order() int { return p.O }
+
+type ProcNodeOrdered struct {
+	ProcNode
+	O int
+}
+
+func (p *ProcNodeOrdered) Order() int { return p.O }
 
 func (p *ProcNode) Naming() string { return "zz-procnode" }
 func (p *ProcNode) AfterPropertiesSet() error {
@@ -78,6 +95,7 @@ func (p *ProcNode) Init() error {
 	if b := NodeOf(p.Dep); b != nil {
 		dep = b.Nm
 	}
+	p.SeenDepType = fmt.Sprintf("%T", p.Dep)
 	p.rt.Event(fmt.Sprintf("init:zz-procnode:dep=%s:v0=%s", dep, p.V0))
 	return nil
 }
@@ -330,24 +348,29 @@ const (
 
 // GraphProg is a dependency-graph program (pure data).
 type GraphProg struct {
-	N          int     `json:"n"`
-	Edges      [][]int `json:"edges"` // Edges[i][j]: kind of the injection point of i that targets j
-	Lazy       []bool  `json:"lazy,omitempty"`
-	Wrap       []int   `json:"wrap,omitempty"`
-	Obs        int     `json:"observers,omitempty"`
-	Reg        []int   `json:"reg,omitempty"`  // registration order (default 0..n-1)
-	Base       []int   `json:"base,omitempty"` // base iteration order of the user names
-	Mode       int     `json:"mode,omitempty"`
-	Faults     bool    `json:"faults,omitempty"`
-	Kinds      string  `json:"kinds,omitempty"`
-	Choices    []int   `json:"choices,omitempty"`
-	Family     string  `json:"family,omitempty"`
-	Config     bool    `json:"config,omitempty"`      // bind slot V0 of every node from configuration (value tag)
-	Full       bool    `json:"full,omitempty"`        // add two loaders, two runners, a scanner and a factory post-processor (fault sites)
-	Extra      []Extra `json:"extra,omitempty"`       // additional unsatisfiable points
-	Bystander  int     `json:"bystander,omitempty"`   // 1: an Ordered(1), 2: a PriorityOrdered(1) processor that only embeds the library default
-	ProcNode   bool    `json:"procnode,omitempty"`    // add a post-processor that has injection points of its own
-	InitLookup [][]int `json:"init_lookup,omitempty"` // [i, j]: node i looks node j up by name inside its Init
+	N       int     `json:"n"`
+	Edges   [][]int `json:"edges"` // Edges[i][j]: kind of the injection point of i that targets j
+	Lazy    []bool  `json:"lazy,omitempty"`
+	Wrap    []int   `json:"wrap,omitempty"`
+	Obs     int     `json:"observers,omitempty"`
+	Reg     []int   `json:"reg,omitempty"`  // registration order (default 0..n-1)
+	Base    []int   `json:"base,omitempty"` // base iteration order of the user names
+	Mode    int     `json:"mode,omitempty"`
+	Faults  bool    `json:"faults,omitempty"`
+	Kinds   string  `json:"kinds,omitempty"`
+	Choices []int   `json:"choices,omitempty"`
+	Family  string  `json:"family,omitempty"`
+	Config  bool    `json:"config,omitempty"` // bind slot V0 of every node from configuration (value tag)
+	Full    bool    `json:"full,omitempty"`   // add two loaders, two runners, a scanner and a factory post-processor (fault sites)
+	Extra   []Extra `json:"extra,omitempty"`  // additional unsatisfiable points
+	// OrderedProcs: the substituting processor gets Order 100 and the processor-with-dependencies
+	// Order 200 (both in the Ordered class); ProcNodeFirst makes the registries enumerate the
+	// latter before the former
+	OrderedProcs  bool    `json:"ordered_procs,omitempty"`
+	ProcNodeFirst bool    `json:"procnode_enumerated_first,omitempty"`
+	Bystander     int     `json:"bystander,omitempty"`   // 1: an Ordered(1), 2: a PriorityOrdered(1) processor that only embeds the library default
+	ProcNode      bool    `json:"procnode,omitempty"`    // add a post-processor that has injection points of its own
+	InitLookup    [][]int `json:"init_lookup,omitempty"` // [i, j]: node i looks node j up by name inside its Init
 	// Attach builds additional harness components that need the execution's runtime.
 	Attach func(rt *RT) []any `json:"-"`
 }
@@ -419,6 +442,7 @@ type GraphObs struct {
 	Nodes       []*N
 	Comps       []any // the registered node objects (*N or *NZ)
 	Procs       []*Proc
+	ProcNode    *ProcNode
 	Err         error
 	Panic       string
 	Abort       string // budget exceeded (termination oracle)
@@ -596,7 +620,26 @@ func RunGraph(p *GraphProg, ch *envx.Chooser) *GraphObs {
 		comps = append(comps, p.Attach(rt)...)
 	}
 	if p.ProcNode {
-		comps = append(comps, &ProcNode{rt: rt})
+		if p.OrderedProcs {
+			pn := &ProcNodeOrdered{ProcNode: ProcNode{rt: rt}, O: 200}
+			o.ProcNode = &pn.ProcNode
+			comps = append(comps, pn)
+			names["zz-proc0"], names["zz-procnode"] = true, true
+			if rt.Base == nil {
+				for i := 0; i < p.N; i++ {
+					rt.Base = append(rt.Base, Name(i, p.N))
+				}
+			}
+			if p.ProcNodeFirst {
+				rt.Base = append(rt.Base, "zz-procnode", "zz-proc0")
+			} else {
+				rt.Base = append(rt.Base, "zz-proc0", "zz-procnode")
+			}
+		} else {
+			pn := &ProcNode{rt: rt}
+			o.ProcNode = pn
+			comps = append(comps, pn)
+		}
 	}
 	switch p.Bystander {
 	case 1:
@@ -656,7 +699,11 @@ func RunGraph(p *GraphProg, ch *envx.Chooser) *GraphObs {
 			}
 		}
 		o.Procs = append(o.Procs, pr)
-		comps = append(comps, pr)
+		if p.OrderedProcs && k == 0 {
+			comps = append(comps, &ProcOrdered{Proc: pr, O: 100})
+		} else {
+			comps = append(comps, pr)
+		}
 	}
 	edges := 0
 	for i := range p.Edges {
